@@ -386,7 +386,7 @@ def replay_tmpl(o):
         st, data = TT.native_call(r["src"], r["cfg"], cd, value=val, evm_version=r["evm"])
     except Exception as e:
         return {"reproduced": None, "detail": f"native run failed: {e!r}"}
-    return {"reproduced": None, "detail": f"native run under {r['cfg']}: calldata=0x{cd.hex()} value={val} -> {st} {data[:64].hex() if st == 'return' else ''} (the failed clause is {o['clause']}; compare with the template's source meaning)"}
+    return {"reproduced": None, "detail": f"native run under {r['cfg']}: calldata=0x{cd.hex()[:600]} value={val} -> {st} {data[:64].hex() if st == 'return' else ''} (the failed clause is {o['clause']}; compare with the template's source meaning)"}
 
 
 REPLAY = {"tmpl": replay_tmpl}
